@@ -322,6 +322,13 @@ type statsFile struct {
 // Finish writes the per-process statistics and replay files, prints one
 // VIOLATION-FILE line per captured violation and fails the test if there are any.
 func (s *Stats) Finish(t *testing.T) {
+	if s.Flush() > 0 {
+		t.Fail()
+	}
+}
+
+// Flush writes statistics and replay files and returns the number of violations.
+func (s *Stats) Flush() int {
 	s.mu.Lock()
 	defer s.mu.Unlock()
 	base := filepath.Join(s.cfg.OutDir, fmt.Sprintf("%s.%d", s.Property, s.cfg.Shard))
@@ -357,9 +364,7 @@ func (s *Stats) Finish(t *testing.T) {
 	}
 	raw, _ := json.MarshalIndent(sf, "", " ")
 	_ = os.WriteFile(base+".stats.json", raw, 0o644)
-	if len(s.violations) > 0 {
-		t.Fail()
-	}
+	return len(s.violations)
 }
 
 // Rapid runs one rapid stream of n cases inside a subtest. The property function
